@@ -133,7 +133,7 @@ CLAIMS = {
                 "C08_balanced: all leaves at the same depth (height-indexed type); C08_step: preserved by every single insertion. "
                 "Correspondence compares the FULL private structure (entries, caches, dtypes, capacities, chain) after every operation "
                 "and, for every fourth history, after every single insertion."
-                + GEN.format(src="the _BFSubcluster methods of bitbirch.py (update and what it calls; theorem C08_code_update_width)", prop="C08"),
+                + GEN.format(src="the _BFSubcluster methods of bitbirch.py (update and what it calls; theorem C08_code_update_width) and _BFNode.append_subcluster / update_split_subclusters / packed_centroids (sub-clusters as handles, buffer rows as centroid tokens; theorems C08_code_append_aligned, C08_code_split_aligned: the per-node centroid cache stays the list of the entries' centroids, by the list expressions of the model's insertion; BBProofs/GenEq8.lean)", prop="C08"),
         "note": TB + "Per-node capacity (a split sibling inherits the old node's capacity, a new root takes the current branching_factor): "
                 "(a) is per node. This is the one check that reads private attributes (_root, _subclusters, _packed_centroids_buf, "
                 "_buffer.dtype, _next_leaf); a rename breaks the tie, not the property. Beyond 2^64 members the model uses an unbounded "
